@@ -229,7 +229,7 @@ def writes (c : OpenCfg) : Bool := c.mode = .w || c.mode = .rw
 /-- One allocation-relevant step of `<container>_open` + `<codec>_init`. -/
 inductive Step
   | contData | contHook (k : ContHook) | flags | parse | peakW | chunkHook
-  | codecData | codecHook (k : CodecHook) | gsmState | g72xState | alacPakt | alacTmp
+  | codecData | codecHook (k : CodecHook) | gsmInit | g72xInit | alacPakt | alacTmp
   deriving DecidableEq, Repr
 
 def applyStep (c : OpenCfg) (st : Step) (s : S) : S :=
@@ -242,20 +242,22 @@ def applyStep (c : OpenCfg) (st : Step) (s : S) : S :=
   | .chunkHook => ({ s.1 with setChunkHook := true }, s.2)
   | .codecData => alloc (.owner .codecData) s
   | .codecHook k => ({ s.1 with codecClose := some k }, s.2)
-  | .gsmState => alloc (.nested .gsmState) s
-  | .g72xState => alloc (.nested .g72xState) s
+  -- gsm_create and `psf->codec_close = gsm610_close` have no reachable `return` between them (gsm610.c:105-175); same in g72x.c:124-172
+  | .gsmInit => let t := alloc (.nested .gsmState) s; ({ t.1 with codecClose := some .gsm610 }, t.2)
+  | .g72xInit => let t := alloc (.nested .g72xState) s; ({ t.1 with codecClose := some .g72x }, t.2)
   | .alacPakt => replace (.nested .alacPakt) s
   | .alacTmp => alloc .tmpDisk (alloc .tmpFd (alloc (.nested .alacTmp) s))
 
 /-- the program of the container stage, in the order of the C (wav.c:166.., aiff.c:243.., caf.c:117.., rf64.c:91.., w64.c:128..) -/
 def contSteps (c : OpenCfg) : List Step :=
   (if c.cont.hasData then [.contData] else []) ++
-  (if c.cont = .aiff then [.contHook .aiff] else []) ++
+  -- aiff.c:246 installs aiff_close right after the calloc; the other containers install theirs last, but those hooks release
+  -- nothing, so for the ledger their position is immaterial and one place is used for all
+  [.contHook (if c.cont = .aiff then .aiff else .otherHook)] ++
   (if c.cont.rich && ((c.cont != .aiff && c.cont != .caf) || writes c) then [.flags] else []) ++
   (if parses c then [.parse] else []) ++
   (if c.mode = .w && c.isFloat && (c.cont = .wav || c.cont = .wavex || c.cont = .aiff || c.cont = .caf) then [.peakW] else []) ++
-  (if c.cont.rich && writes c then [.chunkHook] else []) ++
-  (if c.cont != .aiff then [.contHook .otherHook] else [])
+  (if c.cont.rich && writes c then [.chunkHook] else [])
 
 /-- the program of the codec stage (gsm610.c:92.., g72x.c:85.., alac.c:114.., the others: one calloc) -/
 def codecSteps (c : OpenCfg) : List Step :=
@@ -263,8 +265,8 @@ def codecSteps (c : OpenCfg) : List Step :=
   | .plain => []
   | .dataOnly => [.codecData]
   | .hooked => [.codecData, .codecHook .plainHook]
-  | .gsm610 => [.codecData, .gsmState, .codecHook .gsm610]
-  | .g72x => [.codecData] ++ (if c.mode = .rw then [] else [.g72xState]) ++ [.codecHook .g72x]
+  | .gsm610 => [.codecData, .gsmInit]
+  | .g72x => [.codecData] ++ (if c.mode = .rw then [.codecHook .g72x] else [.g72xInit])
   | .alac => [.codecData, .codecHook .alac] ++
       (if c.mode = .r then [.alacPakt] else if c.mode = .w then [.alacPakt, .alacTmp] else [])
 
@@ -285,27 +287,53 @@ def allocate (c : OpenCfg) (a : Acct) : S :=
 
 /-! ### close (psf_close, sndfile.c:2978) -/
 
-def runCodecHook (k : CodecHook) (s : S) : S :=
-  match k with
-  | .plainHook => s
-  | .gsm610 => free (.nested .gsmState) s                       -- gsm_destroy: `if (gsm_data) free`
-  | .g72x => free (.nested .g72xState) s
-  | .alac =>
-      -- alac_close: write mode: fclose (enctmp) ; remove (enctmpname) ;  both modes: free (pakt_info) ; pakt_info = NULL
-      let s := if s.1.mode = .w then free .tmpDisk (free .tmpFd (free (.nested .alacTmp) s)) else s
-      freeNull (.nested .alacPakt) s
+/-- one release action of psf_close or of a close hook -/
+inductive RAct
+  | free (c : Cell) | freeNull (c : Cell) | clear (c : Cell)
+  | payloads        -- `if (wchunks.chunks) for (k < used) free (chunks [k].data)`
+  deriving DecidableEq, Repr
 
-def runContHook (k : ContHook) (s : S) : S :=
+def runR (a : RAct) (s : S) : S :=
+  match a with
+  | .free c => free c s
+  | .freeNull c => freeNull c s
+  | .clear c => clear c s
+  | .payloads => if s.1.cell (.owner .wchunks) = .null then s else ({ s.1 with payloads := s.1.payloads - s.1.wused }, s.2)
+
+def codecHookProg (k : CodecHook) (m : Mode) : List RAct :=
   match k with
-  | .aiff => freeNull (.nested .aiffMarkstr) s
-  | .otherHook => s
+  | .plainHook => []
+  | .gsm610 => [.free (.nested .gsmState)]                      -- gsm_destroy: `if (gsm_data) free`
+  | .g72x => [.free (.nested .g72xState)]
+  | .alac =>
+      -- alac_close: write mode: fclose (enctmp) ; remove (enctmpname) ;  every mode: free (pakt_info) ; pakt_info = NULL
+      (if m = .w then [.free (.nested .alacTmp), .free .tmpFd, .free .tmpDisk] else []) ++ [.freeNull (.nested .alacPakt)]
+
+def contHookProg (k : ContHook) : List RAct :=
+  match k with
+  | .aiff => [.freeNull (.nested .aiffMarkstr)]
+  | .otherHook => []
 
 /-- psf_fclose: nothing for virtual I/O; a borrowed descriptor is forgotten; otherwise close and forget -/
-def fclose (s : S) : S :=
-  if s.1.vio then s else if s.1.doNotClose then clear .fileFd s else freeNull .fileFd s
+def fcloseProg (vio doNotClose : Bool) : List RAct :=
+  if vio then [] else if doNotClose then [.clear .fileFd] else [.freeNull .fileFd]
 
-def freePayloads (s : S) : S :=
-  if s.1.cell (.owner .wchunks) = .null then s else ({ s.1 with payloads := s.1.payloads - s.1.wused }, s.2)
+/-- everything psf_close does before the payload loop: hooks, psf_fclose, psf_close_rsrc, the first 13 frees -/
+def releaseHead (cc : Option CodecHook) (kc : Option ContHook) (vio doNotClose : Bool) (m : Mode) : List RAct :=
+  (match cc with | some k => codecHookProg k m | none => []) ++
+  (match kc with | some k => contHookProg k | none => []) ++
+  fcloseProg vio doNotClose ++ [.freeNull .rsrcFd] ++
+  Slot.closeFirst.map (fun sl => .free (.owner sl))
+
+def releaseTail : List RAct := Slot.closeLast.map (fun sl => .free (.owner sl)) ++ [.free .psf]
+
+/-- psf_close as a straight-line program.  The conditions it tests (hooks installed, virtual_io, do_not_close_descriptor,
+    file.mode) are not changed by any release action, so they are read once.  (`psf->codec_close = NULL` after the hook ran has no
+    effect on the ledger and is left out.) -/
+def releaseProg (h : Handle) : List RAct :=
+  releaseHead h.codecClose h.contClose h.vio h.doNotClose h.mode ++ [.payloads] ++ releaseTail
+
+def releaseAll (s : S) : S := (releaseProg s.1).foldl (fun s a => runR a s) s
 
 def liveCells (h : Handle) : List Cell := Cell.all.filter (fun c => h.cell c = .live)
 
@@ -313,19 +341,6 @@ def liveCells (h : Handle) : List Cell := Cell.all.filter (fun c => h.cell c = .
 def retire (s : S) : Acct :=
   let a := (liveCells s.1).foldl (fun a c => a.leak c.kind) s.2
   a.leakN s.1.payloads
-
-def releaseAll (s : S) : S :=
-  let s := match s.1.codecClose with
-    | some k => let t := runCodecHook k s; ({ t.1 with codecClose := none }, t.2)
-    | none => s
-  let s := match s.1.contClose with
-    | some k => runContHook k s
-    | none => s
-  let s := fclose s
-  let s := freeNull .rsrcFd s                                   -- psf_close_rsrc
-  let s := freePayloads (Slot.closeFirst.foldl (fun s sl => free (.owner sl) s) s)
-  let s := Slot.closeLast.foldl (fun s sl => free (.owner sl) s) s
-  free .psf s
 
 /-- return value of psf_close: only psf_fclose's result survives (`error` is overwritten twice) -/
 def closeRet (h : Handle) (ioOk : Bool) : Int :=
